@@ -434,7 +434,7 @@ let aff_dim (s : sys) (n : int) : int option =
       match nonempty t with None -> None | Some b -> go (k + 1) (if b then acc + 1 else acc) in
   go 0 0
 
-let ref_query line (x : obj) (c : cur) (ans : string list) =
+let rec ref_query line (x : obj) (c : cur) (ans : string list) =
   let q = next c in let n = x.dim in let xs = x.gamma in
   let exact = (!prop = "C04" && exact_car x) in
   let ansb () = match ans with [ "ans"; "b"; v ] -> b01 v | _ -> raise (Syntax "expected ans b") in
@@ -484,6 +484,19 @@ let ref_query line (x : obj) (c : cur) (ans : string list) =
                 | Some true -> (match aff_dim xs n with Some d -> if string_of_int d = v then Ok else Fail (Printf.sprintf "implementation %s, reference %d" v d) | None -> Undecided)
                 | None -> Undecided)
        | _ -> raise (Syntax "expected ans n"))
+  | "relation_with_con_n" | "relation_with_gen_n" | "relation_with_cg_n" ->
+      (* argument of smaller space dimension k: same reference as the argument padded with zero coefficients *)
+      let k = nexti c in
+      if k > n then raise (Skip "arity above the dimension");
+      let rec take m l = if m = 0 then [], l else (match l with h :: r -> let a, b = take (m - 1) r in h :: a, b | [] -> raise (Syntax "missing token")) in
+      let head, rest = take (2 + k) c.t in
+      tags := !tags ^ Printf.sprintf " arg_arity=%d" k;
+      ref_query line x { t = (String.sub q 0 (String.length q - 2)) :: head @ List.init (n - k) (fun _ -> "0") @ rest } ans
+  | "relation_with_cg" ->
+      (* only equalities (modulus 0) are judged: relation with the corresponding equality constraint *)
+      (match c.t with
+       | m :: rest when m = "0" -> ref_query line x { t = "relation_with_con" :: "=" :: rest } ans
+       | _ -> raise (Skip "proper congruence"))
   | "relation_with_con" ->
       let k = read_con c n in
       tags := !tags ^ Printf.sprintf " con_vars=%d con_kind=%s" (List.length (List.filter (fun a -> a <> Z0) k.ccoefs)) (match k.ckd with EQ -> "eq" | GE -> "ge" | GT -> "gt");
@@ -513,7 +526,18 @@ let ref_query line (x : obj) (c : cur) (ans : string list) =
       if is_point g then begin
         let eqs = List.mapi (fun i ci -> { lcoefs = List.init n (fun j -> if i = j then g.gdiv else Z0); lcst = Z.opp ci }) g.gcoefs in
         cmpb (lazy (nonempty { eqs = eqs @ xs.eqs; ineqs = xs.ineqs }))
-      end else raise (Skip "relation_with a non-point generator")
+      end else begin
+        (* ray / line r: subsumed iff the set is non-empty and r is in its recession cone (lineality space):
+           a.r >= 0 (= 0) for every constraint a.x + b >= 0 (= 0) of the denotation (each listed constraint is valid,
+           so the condition is necessary; it is obviously sufficient).  closure points: not judged *)
+        (match g.gk with GClosure -> raise (Skip "closure point") | _ -> ());
+        let dotz (coefs : z list) = let rec go cs rs acc = (match cs, rs with a :: cr, b :: rr -> go cr rr (Z.add acc (Z.mul a b)) | _ -> acc) in go coefs g.gcoefs Z0 in
+        let is_line = (match g.gk with GLine -> true | _ -> false) in
+        let in_cone = List.for_all (fun (e : lin) -> dotz e.lcoefs = Z0) xs.eqs
+                      && List.for_all (fun (cc : cstr) -> match dotz cc.coefs with Z0 -> true | Zpos _ -> not is_line | Zneg _ -> false) xs.ineqs in
+        tags := !tags ^ " gen_kind=" ^ (if is_line then "line" else "ray");
+        cmpb (lazy (match nonempty xs with Some true -> Some in_cone | Some false -> Some false | None -> None))
+      end
   | "maximize" | "minimize" | "maximize_nw" | "minimize_nw" ->
       let e = read_expr_n c in
       tags := !tags ^ Printf.sprintf " expr_vars=%d" (List.length (nz e));
